@@ -30,6 +30,7 @@ def main():
     ctx.pid, ctx.tier, ctx.seed, ctx.rng, ctx.replay = pid, tier, seed, rng, a.replay
     violations = []      # list of (what, replay_payload, nofail)
     coverage = {}
+    coverage_extra = {}
     known_lines = []
     rc = 0
     try:
@@ -44,6 +45,12 @@ def main():
                 violations.append(("property theorems in Props/%s.v no longer check or depend on unlisted axioms" % pid,
                                    {"coqc": proofs["cmd"], "log": proofs["log"], "assumptions": proofs["assumptions"],
                                     "forbidden": proofs["forbidden"]}, True))
+            if tier == "thorough" and proofs["ok"] and not a.replay:
+                chk = vlib.coqchk_props(pid)
+                coverage_extra["coqchk"] = {k: chk[k] for k in ("ok", "axioms", "modules", "cached", "cmd", "wall_s")}
+                if not chk["ok"]:
+                    violations.append(("coqchk rejects Props/%s*.vo or reports axioms / disabled checks" % pid,
+                                       {"cmd": chk["cmd"], "log": chk["log"], "axioms": chk["axioms"]}, True))
         # E3: harness from the current tree
         try:
             ctx.harness = vlib.build_harness()
@@ -66,6 +73,7 @@ def main():
                 violations.append((v["what"], v, bool(v.get("nofail"))))
             known_lines = res.get("known", [])
             coverage = res.get("coverage", {})
+        coverage.update(coverage_extra)
         nthm = len(proofs["theorems"]) if proofs else 0
         side = coverage.pop("side_obligations", 0)
         side_ok = coverage.pop("side_discharged", 0)
